@@ -337,6 +337,106 @@ Proof.
   - destruct (lstrip is_re_space r) as [|c rest']; [discriminate|]. destruct (Ascii.eqb c ch_close); discriminate.
 Qed.
 
+(* ---- the shape of every match: `[` ws1 g ws2 `]` (group) or `[` ws `]` (no group); match.group(0) ---- *)
+Lemma sprefix_app a b : sprefix (String.length a) (a ++ b) = a.
+Proof. induction a as [|c r IH]; cbn [String.length append sprefix]; [destruct b; reflexivity|]. rewrite IH. reflexivity. Qed.
+
+Lemma matched_text_app m rest : matched_text (m ++ rest) rest = String ch_open m.
+Proof.
+  unfold matched_text. rewrite slength_app. replace (String.length m + String.length rest - String.length rest)%nat with (String.length m) by lia.
+  rewrite sprefix_app. reflexivity.
+Qed.
+
+Lemma close_after_ws_shape s rest : close_after_ws s = Some rest ->
+  exists ws, s = ws ++ String ch_close rest /\ str_all is_re_space ws = true.
+Proof.
+  revert rest; induction s as [|c r IH]; intros rest; cbn [close_after_ws]; [discriminate|].
+  destruct (Ascii.eqb c ch_close) eqn:E.
+  - intros H; inversion H; subst. apply Ascii.eqb_eq in E; subst c. exists "". split; reflexivity.
+  - destruct (is_re_space c) eqn:Sp; [|discriminate]. intros H. destruct (IH _ H) as (ws & -> & Hws).
+    exists (String c ws). split; [reflexivity|]. cbn [str_all]. rewrite Sp, Hws. reflexivity.
+Qed.
+
+Lemma lazy_group_shape s g rest : lazy_group s = Some (g, rest) ->
+  exists ws, s = g ++ ws ++ String ch_close rest /\ str_all is_re_space ws = true.
+Proof.
+  revert g rest; induction s as [|c r IH]; intros g rest; cbn [lazy_group]; [discriminate|].
+  destruct (Ascii.eqb c ch_nl); [discriminate|].
+  destruct (close_after_ws r) as [rest'|] eqn:E.
+  - intros H; inversion H; subst. destruct (close_after_ws_shape _ _ E) as (ws & -> & Hws). exists ws. split; [reflexivity|exact Hws].
+  - destruct (lazy_group r) as [[g' rest']|] eqn:E2; [|discriminate].
+    intros H; inversion H; subst. destruct (IH _ _ eq_refl) as (ws & -> & Hws). exists ws. split; [reflexivity|exact Hws].
+Qed.
+
+Lemma lstrip_shape_ws f s : exists w, s = w ++ lstrip f s /\ str_all f w = true.
+Proof.
+  induction s as [|c r (w & E & H)]; [exists ""; split; reflexivity|].
+  cbn [lstrip]. destruct (f c) eqn:Fc.
+  - exists (String c w). split; [cbn [append]; rewrite <- E; reflexivity|cbn [str_all]; rewrite Fc, H; reflexivity].
+  - exists "". split; reflexivity.
+Qed.
+
+Lemma match_bracket_group_shape r g rest : match_bracket r = BGroup g rest ->
+  exists ws1 ws2, r = ws1 ++ g ++ ws2 ++ String ch_close rest /\ str_all is_re_space ws1 = true /\ str_all is_re_space ws2 = true.
+Proof.
+  unfold match_bracket. destruct (lstrip_shape_ws is_re_space r) as (ws1 & E & H1).
+  remember (lstrip is_re_space r) as t eqn:Lt.
+  destruct (lazy_group t) as [[g' rest']|] eqn:L.
+  - intros H; inversion H; subst g' rest'. destruct (lazy_group_shape _ _ _ L) as (ws2 & E2 & H2).
+    exists ws1, ws2. split; [rewrite E, E2; reflexivity|split; assumption].
+  - destruct t as [|c rest']; [discriminate|]. destruct (Ascii.eqb c ch_close); discriminate.
+Qed.
+
+Lemma match_bracket_nogroup_shape r rest : match_bracket r = BNoGroup rest ->
+  exists ws, r = ws ++ String ch_close rest /\ str_all is_re_space ws = true.
+Proof.
+  unfold match_bracket. destruct (lstrip_shape_ws is_re_space r) as (ws1 & E & H1).
+  remember (lstrip is_re_space r) as t eqn:L.
+  destruct (lazy_group t) as [[g' rest']|]; [discriminate|].
+  destruct t as [|c rest']; [discriminate|].
+  destruct (Ascii.eqb c ch_close) eqn:Ec; [|discriminate]. intros H; inversion H; subst rest'.
+  apply Ascii.eqb_eq in Ec; subst c. exists ws1. split; assumption.
+Qed.
+
+Lemma re_space_no_tick ws : str_all is_re_space ws = true -> has_char ch_tick ws = false.
+Proof. intros H. apply (no_char_of_all is_re_space); [vm_compute; reflexivity|exact H]. Qed.
+
+(* group(0) of a match with a group: `[` ws1 g ws2 `]`; it contains a backtick exactly when the group does *)
+Lemma matched_text_group r g rest : match_bracket r = BGroup g rest ->
+  exists ws1 ws2, matched_text r rest = String ch_open (ws1 ++ g ++ ws2 ++ String ch_close "") /\
+                  str_all is_re_space ws1 = true /\ str_all is_re_space ws2 = true /\
+                  has_char ch_tick (matched_text r rest) = has_char ch_tick g.
+Proof.
+  intros M. destruct (match_bracket_group_shape r g rest M) as (ws1 & ws2 & E & H1 & H2).
+  exists ws1, ws2.
+  assert (EM : matched_text r rest = String ch_open (ws1 ++ g ++ ws2 ++ String ch_close "")).
+  { rewrite E. replace (ws1 ++ g ++ ws2 ++ String ch_close rest) with ((ws1 ++ g ++ ws2 ++ String ch_close "") ++ rest)
+      by (rewrite !sapp_assoc; reflexivity). apply matched_text_app. }
+  split; [exact EM|]. split; [exact H1|]. split; [exact H2|].
+  rewrite EM. cbn [has_char]. rewrite !has_char_app, (re_space_no_tick ws1 H1), (re_space_no_tick ws2 H2).
+  cbn [has_char]. replace (Ascii.eqb ch_open ch_tick) with false by reflexivity.
+  replace (Ascii.eqb ch_close ch_tick) with false by reflexivity. rewrite !orb_false_r. reflexivity.
+Qed.
+
+(* group(0) of a match without a group: `[` ws `]`: never a backtick *)
+Lemma matched_text_nogroup r rest : match_bracket r = BNoGroup rest ->
+  exists ws, matched_text r rest = String ch_open (ws ++ String ch_close "") /\ str_all is_re_space ws = true /\
+             has_char ch_tick (matched_text r rest) = false.
+Proof.
+  intros M. destruct (match_bracket_nogroup_shape r rest M) as (ws & E & H).
+  exists ws.
+  assert (EM : matched_text r rest = String ch_open (ws ++ String ch_close "")).
+  { rewrite E. replace (ws ++ String ch_close rest) with ((ws ++ String ch_close "") ++ rest) by (rewrite sapp_assoc; reflexivity).
+    apply matched_text_app. }
+  split; [exact EM|]. split; [exact H|].
+  rewrite EM. cbn [has_char]. rewrite has_char_app, (re_space_no_tick ws H). reflexivity.
+Qed.
+
+Lemma match_bracket_nogroup_len r rest : match_bracket r = BNoGroup rest -> (String.length rest < String.length r)%nat.
+Proof.
+  intros M. destruct (match_bracket_nogroup_shape r rest M) as (ws & -> & _). rewrite slength_app. cbn [String.length]. lia.
+Qed.
+
 Lemma omap_ext {A B} (f g : A -> B) o : (forall a, f a = g a) -> omap f o = omap g o.
 Proof. intros H. destruct o; cbn; [rewrite H|]; reflexivity. Qed.
 
@@ -353,59 +453,38 @@ Section RewriteFacts.
   Notation rewrite := (rewrite has locate).
   Notation eval_text := (eval_text has locate).
 
+  Lemma rewrite_f_step f c r :
+    rewrite_f (S f) (String c r) =
+      if Ascii.eqb c ch_open then
+        match match_bracket r with
+        | BGroup g rest =>
+            if negb (has_char ch_tick (matched_text r rest)) then omap (fun u => matched_text r rest ++ u) (rewrite_f f rest)
+            else match resolve_group g with
+                 | Raise e => Raise e
+                 | Ret t => omap (fun u => t ++ u) (rewrite_f f rest)
+                 end
+        | BNoGroup rest =>
+            if negb (has_char ch_tick (matched_text r rest)) then omap (fun u => matched_text r rest ++ u) (rewrite_f f rest)
+            else Raise AttributeError
+        | BNoMatch => omap (String c) (rewrite_f f r)
+        end
+      else omap (String c) (rewrite_f f r).
+  Proof. reflexivity. Qed.
+
   Lemma rewrite_f_fuel f1 : forall f2 s,
     (String.length s < f1)%nat -> (String.length s < f2)%nat -> rewrite_f f1 s = rewrite_f f2 s.
   Proof.
     induction f1 as [|f1 IH]; intros f2 s H1 H2; [lia|].
     destruct f2 as [|f2]; [lia|].
     destruct s as [|c r]; [reflexivity|]. cbn [String.length] in H1, H2.
-    change (EvalIdx.rewrite_f has locate (S f1) (String c r)) with
-      (if Ascii.eqb c ch_open then
-        match match_bracket r with
-        | BGroup g rest =>
-            match resolve_group g with
-            | Raise e => Raise e
-            | Ret t => omap (fun u => t ++ u) (rewrite_f f1 rest)
-            end
-        | BNoGroup _ => Raise AttributeError
-        | BNoMatch => omap (String c) (rewrite_f f1 r)
-        end
-      else omap (String c) (rewrite_f f1 r)).
-    change (EvalIdx.rewrite_f has locate (S f2) (String c r)) with
-      (if Ascii.eqb c ch_open then
-        match match_bracket r with
-        | BGroup g rest =>
-            match resolve_group g with
-            | Raise e => Raise e
-            | Ret t => omap (fun u => t ++ u) (rewrite_f f2 rest)
-            end
-        | BNoGroup _ => Raise AttributeError
-        | BNoMatch => omap (String c) (rewrite_f f2 r)
-        end
-      else omap (String c) (rewrite_f f2 r)).
+    rewrite !rewrite_f_step.
     destruct (Ascii.eqb c ch_open).
     - destruct (match_bracket r) as [g rest|rest|] eqn:E.
-      + apply match_bracket_len in E. destruct (resolve_group g); [|reflexivity].
-        f_equal. apply IH; lia.
-      + reflexivity.
+      + apply match_bracket_len in E. rewrite (IH f2 rest) by lia. reflexivity.
+      + apply match_bracket_nogroup_len in E. rewrite (IH f2 rest) by lia. reflexivity.
       + f_equal. apply IH; lia.
     - f_equal. apply IH; lia.
   Qed.
-
-  Lemma rewrite_f_step f c r :
-    rewrite_f (S f) (String c r) =
-      if Ascii.eqb c ch_open then
-        match match_bracket r with
-        | BGroup g rest =>
-            match resolve_group g with
-            | Raise e => Raise e
-            | Ret t => omap (fun u => t ++ u) (rewrite_f f rest)
-            end
-        | BNoGroup _ => Raise AttributeError
-        | BNoMatch => omap (String c) (rewrite_f f r)
-        end
-      else omap (String c) (rewrite_f f r).
-  Proof. reflexivity. Qed.
 
   Lemma rewrite_unfold s : rewrite s = rewrite_f (S (String.length s)) s.
   Proof. reflexivity. Qed.
@@ -418,21 +497,31 @@ Section RewriteFacts.
     intros E. rewrite (rewrite_unfold (String c r)). cbn [String.length]. rewrite rewrite_f_step, E. reflexivity.
   Qed.
 
+  (* a match with a group: unchanged when it holds no backtick (fix 24bdfbd), through the callback otherwise *)
   Lemma rewrite_open_group r g rest :
     match_bracket r = BGroup g rest ->
     rewrite (String ch_open r) =
-      match resolve_group g with Raise e => Raise e | Ret t => omap (fun u => t ++ u) (rewrite rest) end.
+      if has_char ch_tick g
+      then match resolve_group g with Raise e => Raise e | Ret t => omap (fun u => t ++ u) (rewrite rest) end
+      else omap (fun u => matched_text r rest ++ u) (rewrite rest).
   Proof.
     intros E. rewrite (rewrite_unfold (String ch_open r)). cbn [String.length]. rewrite rewrite_f_step.
     rewrite Ascii.eqb_refl, E.
-    destruct (resolve_group g); [|reflexivity]. f_equal. rewrite (rewrite_unfold rest).
-    apply match_bracket_len in E. apply rewrite_f_fuel; lia.
+    destruct (matched_text_group r g rest E) as (ws1 & ws2 & _ & _ & _ & HT). rewrite HT.
+    pose proof (match_bracket_len _ _ _ E) as L.
+    assert (F : rewrite_f (S (String.length r)) rest = rewrite rest) by (rewrite (rewrite_unfold rest); apply rewrite_f_fuel; lia).
+    rewrite F. destruct (has_char ch_tick g); reflexivity.
   Qed.
 
-  Lemma rewrite_open_nogroup r rest : match_bracket r = BNoGroup rest -> rewrite (String ch_open r) = Raise AttributeError.
+  (* `[ws]`: group(1) is None, but group(0) holds no backtick, so the match is returned unchanged (no AttributeError any more) *)
+  Lemma rewrite_open_nogroup r rest : match_bracket r = BNoGroup rest ->
+    rewrite (String ch_open r) = omap (fun u => matched_text r rest ++ u) (rewrite rest).
   Proof.
     intros E. rewrite (rewrite_unfold (String ch_open r)). cbn [String.length]. rewrite rewrite_f_step.
-    rewrite Ascii.eqb_refl, E. reflexivity.
+    rewrite Ascii.eqb_refl, E.
+    destruct (matched_text_nogroup r rest E) as (ws & _ & _ & HT). rewrite HT. cbn [negb].
+    pose proof (match_bracket_nogroup_len _ _ E) as L.
+    rewrite (rewrite_unfold rest). f_equal. apply rewrite_f_fuel; lia.
   Qed.
 
   Lemma rewrite_open_nomatch r : match_bracket r = BNoMatch -> rewrite (String ch_open r) = omap (String ch_open) (rewrite r).
@@ -456,29 +545,86 @@ Section RewriteFacts.
       rewrite (IH E2). rewrite omap_omap. reflexivity.
   Qed.
 
-  (* a well-formed bracket: its content goes through the callback, the text after it is processed next *)
+  (* a well-formed bracket WITH a backtick: its content goes through the callback, the text after it is processed next *)
   Theorem rewrite_bracket ws1 g ws2 post :
     str_all is_re_space ws1 = true -> wf_group g = true -> str_all is_re_space ws2 = true ->
+    has_char ch_tick g = true ->
     rewrite (String ch_open (ws1 ++ g ++ ws2 ++ String ch_close post)) =
       match resolve_group g with Raise e => Raise e | Ret t => omap (fun u => t ++ u) (rewrite post) end.
-  Proof. intros H1 W H2. apply rewrite_open_group. apply match_bracket_wf; assumption. Qed.
+  Proof.
+    intros H1 W H2 HT. rewrite (rewrite_open_group _ g post (match_bracket_wf ws1 g ws2 post H1 W H2)). rewrite HT. reflexivity.
+  Qed.
 
-  (* `[` followed only by whitespace and `]`, with no later `]` on the line: group(1) is None -> AttributeError *)
+  (* a well-formed bracket WITHOUT a backtick: copied verbatim — brackets, inner whitespace and all *)
+  Theorem rewrite_bracket_verbatim ws1 g ws2 post :
+    str_all is_re_space ws1 = true -> wf_group g = true -> str_all is_re_space ws2 = true ->
+    has_char ch_tick g = false ->
+    rewrite (String ch_open (ws1 ++ g ++ ws2 ++ String ch_close post)) =
+      omap (fun u => String ch_open (ws1 ++ g ++ ws2 ++ String ch_close "") ++ u) (rewrite post).
+  Proof.
+    intros H1 W H2 HT. rewrite (rewrite_open_group _ g post (match_bracket_wf ws1 g ws2 post H1 W H2)). rewrite HT.
+    replace (ws1 ++ g ++ ws2 ++ String ch_close post) with ((ws1 ++ g ++ ws2 ++ String ch_close "") ++ post)
+      by (rewrite !sapp_assoc; reflexivity).
+    rewrite matched_text_app. reflexivity.
+  Qed.
+
+  (* `[` followed only by whitespace and `]`, with no later `]` on the line: copied verbatim (before the fix: AttributeError) *)
   Theorem rewrite_empty_bracket ws post :
     str_all is_re_space ws = true -> has_char ch_close post = false ->
-    rewrite (String ch_open (ws ++ String ch_close post)) = Raise AttributeError.
+    rewrite (String ch_open (ws ++ String ch_close post)) = omap (fun u => String ch_open (ws ++ String ch_close "") ++ u) (rewrite post).
   Proof.
-    intros Hws Hp. apply (rewrite_open_nogroup _ post). unfold match_bracket.
-    rewrite lstrip_all by exact Hws. cbn [lstrip].
-    replace (is_re_space ch_close) with false by (vm_compute; reflexivity).
-    assert (L : forall s, has_char ch_close s = false -> lazy_group s = None /\ close_after_ws s = None).
-    { induction s as [|c r IH]; [split; reflexivity|]. cbn [has_char]. intros E. apply orb_false_iff in E as [E1 E2].
-      destruct (IH E2) as [I1 I2]. cbn [lazy_group close_after_ws]. rewrite E1, I1, I2.
-      split; [destruct (Ascii.eqb c ch_nl); reflexivity|destruct (is_re_space c); reflexivity]. }
-    destruct (L post Hp) as [L1 L2].
-    cbn [lazy_group]. replace (Ascii.eqb ch_close ch_nl) with false by reflexivity.
-    rewrite L2, L1. rewrite Ascii.eqb_refl. reflexivity.
+    intros Hws Hp.
+    assert (M : match_bracket (ws ++ String ch_close post) = BNoGroup post).
+    { unfold match_bracket.
+      rewrite lstrip_all by exact Hws. cbn [lstrip].
+      replace (is_re_space ch_close) with false by (vm_compute; reflexivity).
+      assert (L : forall s, has_char ch_close s = false -> lazy_group s = None /\ close_after_ws s = None).
+      { induction s as [|c r IH]; [split; reflexivity|]. cbn [has_char]. intros E. apply orb_false_iff in E as [E1 E2].
+        destruct (IH E2) as [I1 I2]. cbn [lazy_group close_after_ws]. rewrite E1, I1, I2.
+        split; [destruct (Ascii.eqb c ch_nl); reflexivity|destruct (is_re_space c); reflexivity]. }
+      destruct (L post Hp) as [L1 L2].
+      cbn [lazy_group]. replace (Ascii.eqb ch_close ch_nl) with false by reflexivity.
+      rewrite L2, L1. rewrite Ascii.eqb_refl. reflexivity. }
+    rewrite (rewrite_open_nogroup _ post M).
+    replace (ws ++ String ch_close post) with ((ws ++ String ch_close "") ++ post) by (rewrite sapp_assoc; reflexivity).
+    rewrite matched_text_app. reflexivity.
   Qed.
+
+  (* an expression without any backtick is a fixed point of the rewriter: EVERY string *)
+  Lemma matched_text_tick_le r rest m : r = m ++ rest -> has_char ch_tick (String ch_open r) = false ->
+    has_char ch_tick (matched_text r rest) = false /\ has_char ch_tick rest = false.
+  Proof.
+    intros -> H. rewrite matched_text_app. cbn [has_char] in *. rewrite has_char_app in H.
+    apply orb_false_iff in H as [H0 H]. apply orb_false_iff in H as [Hm Hr]. rewrite H0, Hm. split; [reflexivity|exact Hr].
+  Qed.
+
+  Lemma matched_text_rest r rest m : r = m ++ rest -> matched_text r rest ++ rest = String ch_open r.
+  Proof. intros ->. rewrite matched_text_app. reflexivity. Qed.
+
+  Lemma rewrite_f_no_tick fuel : forall s, (String.length s < fuel)%nat -> has_char ch_tick s = false -> rewrite_f fuel s = Ret s.
+  Proof.
+    induction fuel as [|f IH]; intros s L H; [lia|].
+    destruct s as [|c r]; [reflexivity|]. cbn [String.length] in L. rewrite rewrite_f_step.
+    assert (Hr : has_char ch_tick r = false) by (cbn [has_char] in H; apply orb_false_iff in H; apply H).
+    destruct (Ascii.eqb c ch_open) eqn:Eo.
+    - apply Ascii.eqb_eq in Eo; subst c.
+      destruct (match_bracket r) as [g rest|rest|] eqn:E.
+      + destruct (match_bracket_group_shape r g rest E) as (ws1 & ws2 & Er & _ & _).
+        assert (Er' : r = (ws1 ++ g ++ ws2 ++ String ch_close "") ++ rest) by (rewrite Er at 1; rewrite !sapp_assoc; reflexivity).
+        destruct (matched_text_tick_le r rest _ Er' H) as [Hm Hrest]. rewrite Hm. cbn [negb].
+        pose proof (match_bracket_len _ _ _ E). rewrite (IH rest) by (try lia; exact Hrest). cbn [omap].
+        rewrite (matched_text_rest r rest _ Er'). reflexivity.
+      + destruct (match_bracket_nogroup_shape r rest E) as (ws & Er & _).
+        assert (Er' : r = (ws ++ String ch_close "") ++ rest) by (rewrite Er at 1; rewrite sapp_assoc; reflexivity).
+        destruct (matched_text_tick_le r rest _ Er' H) as [Hm Hrest]. rewrite Hm. cbn [negb].
+        pose proof (match_bracket_nogroup_len _ _ E). rewrite (IH rest) by (try lia; exact Hrest). cbn [omap].
+        rewrite (matched_text_rest r rest _ Er'). reflexivity.
+      + rewrite (IH r) by (try lia; exact Hr). reflexivity.
+    - rewrite (IH r) by (try lia; exact Hr). reflexivity.
+  Qed.
+
+  Theorem rewrite_no_tick_identity s : has_char ch_tick s = false -> rewrite s = Ret s.
+  Proof. intros H. unfold EvalIdx.rewrite. apply rewrite_f_no_tick; [lia|exact H]. Qed.
 
   (* ---- eval's first step ---- *)
   Theorem eval_text_no_backtick e : has_char ch_tick e = false -> eval_text e = Ret e.
